@@ -81,6 +81,16 @@ class ShapelyPolygon(Domain):
                     biggest_area = t.area
             if len(points) == n:
                 break
+        if big_t is None and len(points) < n:
+            # for small n no triangle got a point: fill up in the biggest triangle inside the
+            # polygon (or, if there is none, in the triangle with the biggest part inside,
+            # whose points are filtered)
+            triangles = s_ops.triangulate(self.polygon)
+            inside = [t for t in triangles if t.within(self.polygon)]
+            if inside:
+                big_t = max(inside, key=lambda t: t.area)
+            else:
+                big_t = max(triangles, key=lambda t: t.intersection(self.polygon).area)
         points = self._check_enough_points_sampled(n, points, big_t, device)
         return Points(points, self.space)
 
